@@ -84,6 +84,14 @@ theorem request_handler_awaits_directly :
     Gen.Site.handleRequest.filter (fun x => x ∈ ["_socket_operation", "wait_for", "create_task", "shield"]) = [] := by
   decide
 
+/-- TIE TO THE SOURCE (regenerated on every run, Gen/Site.lean): `put_delivery_segmented` reads and updates the store of
+    inbound parts without giving up control - the part is kept, or the message completed and its entry dropped, in one atomic
+    step, which is what the model's `c.hdel` step is; the only `await` on either path is the sweep AFTER the update. -/
+theorem reassembly_step_is_atomic :
+    Gen.Site.putDeliverySegmentedAwaits =
+      ["get:_delivery_segment_store", "pop:_delivery_segment_store", "_remove_expired", "await",
+       "set:_delivery_segment_store", "_remove_expired", "await"] := by decide
+
 end SmppVerif.Props.C09
 
 #print axioms SmppVerif.Props.C09.reassemble_any_order
@@ -92,3 +100,4 @@ end SmppVerif.Props.C09
 #print axioms SmppVerif.Props.C09.numeric_order
 #print axioms SmppVerif.Props.C09.handle_request_step_order
 #print axioms SmppVerif.Props.C09.request_handler_awaits_directly
+#print axioms SmppVerif.Props.C09.reassembly_step_is_atomic
